@@ -367,6 +367,30 @@ def canonical_form(parents):
     return rec(0)
 
 
+def ordered_form(parents):
+    """nested tuple identifying the ordered rooted shape (children left to right), whatever the node numbering"""
+    n = len(parents) + 1
+    ch = [[] for _ in range(n)]
+    for i, p in enumerate(parents):
+        ch[p].append(i + 1)
+
+    def rec(i):
+        return tuple(rec(c) for c in ch[i])
+    return rec(0)
+
+
+def ordered_representatives(vectors):
+    """one parent vector per ordered shape (Catalan many), first one in enumeration order"""
+    seen = set()
+    out = []
+    for v in vectors:
+        c = ordered_form(v)
+        if c not in seen:
+            seen.add(c)
+            out.append(v)
+    return out
+
+
 def unordered_representatives(vectors):
     seen = set()
     out = []
